@@ -355,7 +355,8 @@ def run_property(pid: str, props_file: str, streams: list[Stream], tier: str, se
     gate = grep_gate(files)
     if gate:
         proof_broken.append("forbidden construct: " + "; ".join(gate[:5]))
-    ok, log = build([props_file[:-2] + ".vo"])
+    extra_targets = sorted({t for st in streams for t in getattr(st, "coq_targets", [])})
+    ok, log = build([props_file[:-2] + ".vo"] + extra_targets)
     n_obl, obl_names = count_obligations(files)
     axioms = {}
     if not ok:
